@@ -373,6 +373,10 @@ fn conditional_directive(line: &str) -> Option<Directive> {
         .chars()
         .take_while(|c| c.is_ascii_lowercase())
         .collect();
+    // the name ends there, as the grammar demands where lines are assembled
+    if rest[1 + word.len()..].starts_with(|c: char| c.is_ascii_alphanumeric() || c == '_') {
+        return None;
+    }
     match word.as_str() {
         "if" => Some(Directive::If),
         "ifdef" => Some(Directive::IfDef),
